@@ -20,6 +20,8 @@ def gen(c):
             extra += [(rate * k, rate * j) for k in (4, 8) for j in (16, 64)] + [(300, 1024), (5, 4096), (1000, 33)]
         else:
             extra += [(33, 40), (rate * 4, rate * 8)]      # AD beyond the 32 bytes of every KAT vector
+        # more than 255 rate blocks of associated data / of message (block counters wider than a byte)
+        extra += [(256 * rate + rng.choice([0, 3]), rng.choice([0, 5])), (rng.choice([0, 2]), 256 * rate + rng.choice([0, rate - 1]))]
         for adl, ml in cases + extra:
             k = pattern(rng, klen); n = pattern(rng, 16); ad = pattern(rng, adl); m = pattern(rng, ml)
             ch = ','.join(map(str, chunks(rng, ml, rate)))
@@ -36,8 +38,14 @@ def run(c):
     p = gen(c)
     c.assumptions += ['structure (lengths mod rate, block counts, families, in-place, NULL-for-empty, alignment, chunkings) enumerated/sampled by class; key/nonce/data VALUES sampled (random, all-0, all-FF, counting, single bit)',
                       'expected values are computed by TLC from AsconModes.tla (anchored on the reference KAT vectors by KatCheck)']
+    # several packets on one incremental object (the second start() finds a used state), re-init in between
+    from c07 import sessions
+    sessions(c, p, 200 if c.tier == 'thorough' else 20)
     c.tv(p, 'rel', 'enc', max_cost=25.0)
     if c.tier == 'thorough':
-        for fl in ('c64', 'c32', 'dxor'):
+        for fl in ('c64', 'c32', 'dxor', 'ks3+ds2', 'c64+ks2+ds1+ms2'):
             c.tv(p, fl, 'enc', max_cost=25.0)
+    else:
+        # the other back ends have their own absorb / encrypt macros, the share configurations their own conversions
+        c.tv_sample(p, 'enc', ('c32', 'c64', 'dxor', 'ks3+ds2', 'c64+ks2+ds1+ms2'), k=45, max_cost=15.0, pred=lambda cs: cs[1] < 8)
     c.cov['rule'] = 'case = (scheme, |AD| class, |M| class) with seeded values; 6 entry-point families per case; distinct = (scheme, |AD| mod rate, AD blocks, |M| mod rate, M blocks)'
